@@ -104,8 +104,12 @@ def priv(obj, name):
         return _MISSING
 
 
+_KEY_CACHE = {}            # id(namespace object) -> (object, key); valid for the tree currently looked at
+
+
 def set_root_dir(root_dir):
     _ROOT_PARENT[0] = pathlib.Path(root_dir).resolve().parent
+    _KEY_CACHE.clear()
 
 
 def is_namespace(x):
@@ -135,6 +139,15 @@ def nskey(ns):
     """Unstropped name components of a namespace: from the public `source_file_path` (the DSDL directory) relative to
     the root namespace's parent directory; `Namespace("")` (no types) is the single empty component.  The private
     `_namespace_components` is only a cross-check."""
+    hit = _KEY_CACHE.get(id(ns))
+    if hit is not None and hit[0] is ns:
+        return hit[1]
+    key = _nskey_uncached(ns)
+    _KEY_CACHE[id(ns)] = (ns, key)
+    return key
+
+
+def _nskey_uncached(ns):
     key = None
     try:
         if ns.full_namespace == "":
@@ -163,7 +176,7 @@ def parent_map(root):
     return pm
 
 
-def impl_extract(types, every, root_dir, out_dir, lctx):
+def impl_extract(types, every, root_dir, out_dir, lctx, with_support=True):
     """Everything the property talks about, from the real objects, canonicalised."""
     from nunavut import build_namespace_tree
     from nunavut.jinja import DSDLCodeGenerator
@@ -219,11 +232,16 @@ def impl_extract(types, every, root_dir, out_dir, lctx):
     res["inc"] = inc
     from nunavut.jinja import SupportGenerator
     res["support_folders"] = sorted(parts_of(n.get_support_output_folder()) for n, _ in nss)
-    try:
-        res["support_files"] = sorted((parts_of(p) for p in SupportGenerator(root).generate_all(is_dryrun=True)), key=repr)
-    except ValueError:
-        res["support_files"] = "Ebad-suffix"
-    return res, (root, gen)
+    sup_paths = None      # the support generator compiles its templates even in a dry run (~50 ms): optional per case
+    if with_support:
+        try:
+            sup_paths = list(SupportGenerator(root).generate_all(is_dryrun=True))
+            res["support_files"] = sorted((parts_of(p) for p in sup_paths), key=repr)
+        except ValueError:
+            res["support_files"] = "Ebad-suffix"
+    else:
+        res["support_files"] = None
+    return res, (root, gen, sup_paths)
 
 
 # ------------------------------------------------------------------------------------------------------------
@@ -360,7 +378,7 @@ def search(ctx, case, types, every, root_dir, clean_out, lctx, built, own_paths)
     `built` = (root Namespace, generator); `own_paths` maps every type of the universe to the relative posix path it
     gets in the tree of its *own* root namespace under the same language configuration.
     """
-    root, gen = built
+    root, gen, sup_paths = built
     set_root_dir(root_dir)
     language = lctx.get_target_language()
     strop = lambda s: language.filter_id(s, "path")  # noqa: E731
@@ -485,8 +503,7 @@ def search(ctx, case, types, every, root_dir, clean_out, lctx, built, own_paths)
         if f != want_folder:
             ctx.fail({"kind": "support-folder"}, "get_support_output_folder() is not the output directory",
                      rep(namespace=kstr(nskey(n)), support_folder=f.as_posix(), outdir=base))
-    from nunavut.jinja import SupportGenerator
-    for p in SupportGenerator(root).generate_all(is_dryrun=True):
+    for p in (sup_paths or []):
         q = pathlib.PurePosixPath(p.as_posix())
         try:
             rel = q.relative_to(want_folder)
@@ -658,11 +675,11 @@ def run_pathlib_tie(ctx, drv):
     ctx.extra["pathlib_ops_compared"] = len(reqs)
 
 
-def one_tree(ctx, pending, case, types, deps, root_dir, out_spelled, lctx):
+def one_tree(ctx, pending, case, types, deps, root_dir, out_spelled, lctx, with_support=True):
     """Real side of one case: build + extract, sample the strop table, queue the model request."""
     language = lctx.get_target_language()
     every = list(types) + list(deps)
-    res, built = impl_extract(types, every, root_dir, out_spelled, lctx)
+    res, built = impl_extract(types, every, root_dir, out_spelled, lctx, with_support)
     names = set([""]) if not types else set()
     for t in every:
         k = tkey(t)
@@ -736,7 +753,7 @@ def run_exhaustive(ctx, pending):
                         deps.append(d)
             case = {"universe": "exhaustive", "root": "r", "lang": lang, "ext": None, "stem": None, "enable_stropping": None,
                     "outdir": "out", "types": [tstr(tkey(t)) for t in sel], "refs": [tstr(tkey(t)) for t in deps]}
-            res, built = one_tree(ctx, pending, case, sel, deps, roots[0]["dir"], "out", lctx)
+            res, built = one_tree(ctx, pending, case, sel, deps, roots[0]["dir"], "out", lctx, with_support=(i % 8 == 0))
             count_case(ctx, case, sel, res, language, lang, None, None, None, "out")
             ctx.count("stream=exhaustive")
             if built is not None:
@@ -878,7 +895,8 @@ def run(ctx: common.Ctx):
                                 deps.append(d)
                     case = {"universe": uname, "root": r["name"], "lang": lang, "ext": ext, "stem": stem, "enable_stropping": enable,
                             "outdir": out_spelled, "types": [tstr(tkey(t)) for t in types], "refs": [tstr(tkey(t)) for t in deps]}
-                    res, built = one_tree(ctx, pending, case, types, deps, r["dir"], out_spelled, lctx)
+                    res, built = one_tree(ctx, pending, case, types, deps, r["dir"], out_spelled, lctx,
+                                          with_support=(ctx.quick or not types or rng.random() < 0.2))
                     trees.append((r, types, deps, case, res, built))
                     if built is not None:
                         base = pathlib.PurePosixPath(out_spelled)
@@ -930,6 +948,8 @@ def run(ctx: common.Ctx):
             if isinstance(m.get("support_files"), list) and m["support_files"] and all(isinstance(x, str) for x in m["support_files"]) \
                     and res.get("support_files") == "Ebad-suffix":
                 m["support_files"] = "Ebad-suffix"
+            if res.get("support_files", 0) is None:
+                m["support_files"] = None
             if m != res:
                 d = first_diff(m, res) or {}
                 ctx.disagree("nstree", dict(case, request=line, where=d.get("field"), at=d.get("at")),
